@@ -131,7 +131,7 @@ func verifH_C02_independence() {
 //
 //verif:harness prop=C02 name=boundary
 //verif:cases quick keylen=10 period=1,30,3600
-//verif:cases thorough keylen=10 period=1,2,30,60,3600,86400,4294967296
+//verif:cases thorough keylen=10 period=1,2,30,3600,4294967296
 //verif:replace github.com/ja7ad/otp.deriveRFC4226=verifStub_deriveRec
 //verif:replace github.com/ja7ad/otp.DecodeSecret=verifStub_DecodeSecret
 func verifH_C02_boundary() {
